@@ -10,8 +10,8 @@ import (
 	"fmt"
 	"math/rand"
 	"os"
-	"sort"
 	"runtime/debug"
+	"sort"
 	"strconv"
 	"strings"
 
@@ -70,7 +70,9 @@ func getCodec(mode string, id uint32) *kcodec {
 	return k
 }
 
-func isOOB(err error) bool { return err != nil && strings.Contains(err.Error(), "does not belong to the keyspace") }
+func isOOB(err error) bool {
+	return err != nil && strings.Contains(err.Error(), "does not belong to the keyspace")
+}
 
 var lastPanic string
 
